@@ -75,8 +75,27 @@ pub struct ParsedImage {
     pub layout_problems: Vec<String>,
 }
 
-/// Decode one entry region (header + value + key) the way the format documents it.
+/// Decode one entry region (header + value + key) the way the format documents it, for u64 keys and
+/// length-prefixed byte values.
 pub fn decode_entry(buf: &[u8]) -> Result<(u64, u64, u64, Vec<u8>), String> {
+    let (hash, sequence, kb, plain) = decode_entry_raw(buf)?;
+    // Vec<u8> code: usize LE length + bytes
+    if plain.len() < 8 {
+        return Err("value too short".into());
+    }
+    let n = u64::from_le_bytes(plain[..8].try_into().unwrap()) as usize;
+    if plain.len() != 8 + n {
+        return Err(format!("value length {} vs {}", n, plain.len() - 8));
+    }
+    if kb.len() != 8 {
+        return Err("key length".into());
+    }
+    let key = u64::from_le_bytes(kb[..].try_into().unwrap());
+    Ok((hash, sequence, key, plain[8..].to_vec()))
+}
+
+/// Header + checksum + decompression only: (hash, sequence, encoded key bytes, encoded value bytes after decompression).
+pub fn decode_entry_raw(buf: &[u8]) -> Result<(u64, u64, Vec<u8>, Vec<u8>), String> {
     if buf.len() < HEADER_LEN {
         return Err("short header".into());
     }
@@ -113,20 +132,8 @@ pub fn decode_entry(buf: &[u8]) -> Result<(u64, u64, u64, Vec<u8>), String> {
             &dec
         }
     };
-    // Vec<u8> code: usize LE length + bytes
-    if plain.len() < 8 {
-        return Err("value too short".into());
-    }
-    let n = u64::from_le_bytes(plain[..8].try_into().unwrap()) as usize;
-    if plain.len() != 8 + n {
-        return Err(format!("value length {} vs {}", n, plain.len() - 8));
-    }
     let kb = &body[value_len..value_len + key_len];
-    if kb.len() != 8 {
-        return Err("key length".into());
-    }
-    let key = u64::from_le_bytes(kb.try_into().unwrap());
-    Ok((hash, sequence, key, plain[8..].to_vec()))
+    Ok((hash, sequence, kb.to_vec(), plain.to_vec()))
 }
 
 pub fn parse_block(cfg: &HCfg, block: u32, data: &[u8], out: &mut ParsedImage) -> usize {
